@@ -35,6 +35,7 @@ def dispatch (line : String) : String :=
       | "c07" => handleC07 f
       | "c08" => handleC08 f
       | "c08s" => handleC08s f
+      | "c08k" => handleC08k f
       | "c09" => handleC09 f
       | "c10" => handleC10 f
       | "c11" => handleC11 f
